@@ -186,6 +186,62 @@ func checkC36(c *Check) {
 	c.Ob("udp/ack-prefix-monotone", "all-writers-seen", nw == c.ruleCount["udp/ack-prefix-monotone"], "", fmt.Sprintf("type-resolved writers of the three prefix fields: %d; sites judged: %d", nw, c.ruleCount["udp/ack-prefix-monotone"]))
 	c.Floor("udp/ack-prefix-monotone", 5)
 
+	// (1a') reassembly: when the receive window is extended up to chunk A, the slots up to min(A, B) (B = last chunk of the
+	// message at the back of the window) are bound to that message; the fresh empty slot at A may be written only when A
+	// lies beyond B (or there is no such message) — otherwise it unbinds the last chunk of a partly received message
+	if ir := r.ir("pkg/rpc/udp.IncomingConnection.extendWindow"); ir != nil {
+		minRx := regexp.MustCompile(`^\((\S+) <= min\((\S+), (\S+)\)\)$`)
+		var g1 *IfN
+		var idx, a, b string
+		for _, n := range ir.Body {
+			in, ok := n.(*IfN)
+			if !ok {
+				continue
+			}
+			for _, t := range in.Then {
+				if l, ok := t.(*LoopN); ok && l.Cond != nil {
+					if m := minRx.FindStringSubmatch(l.Cond.String()); m != nil {
+						for _, x := range l.Body {
+							if cn, ok := x.(*CallN); ok && cn.Fn != nil && cn.Fn.Name() == "Set" && len(cn.Args) == 2 && cn.Args[0] == m[1] {
+								g1, idx, a, b = in, m[1], m[2], m[3]
+							}
+						}
+					}
+				}
+			}
+		}
+		ok, detail := false, "the binding loop `for next <= min(A, B) { window.Set(next, {message}) }` was not found"
+		if g1 != nil {
+			detail = "no later `window.Set(A, empty)`"
+			for _, n := range ir.Body {
+				in, isIf := n.(*IfN)
+				if !isIf || in.Pos <= g1.Pos {
+					continue
+				}
+				for _, t := range in.Then {
+					cn, isC := t.(*CallN)
+					if !isC || cn.Fn == nil || cn.Fn.Name() != "Set" || len(cn.Args) != 2 {
+						continue
+					}
+					// the fresh slot is at one of the two bounds of the loop; the other one is the message's last chunk
+					at, other := cn.Args[0], ""
+					switch at {
+					case a:
+						other = b
+					case b:
+						other = a
+					}
+					want := "or(" + g1.Cond.Not().String() + ",(" + other + " < " + at + "))"
+					ok = other != "" && in.Cond.String() == want
+					detail = fmt.Sprintf("loop binds %s while %s <= min(%s, %s) under %s; fresh slot at %s under %s; required %s", idx, idx, a, b, g1.Cond, at, in.Cond, want)
+				}
+			}
+		}
+		c.Ob("udp/window-slot-not-unbound", "IncomingConnection.extendWindow", ok, r.pos(ir.Info.Decl.Pos()), detail)
+	} else {
+		c.Undecided("udp/window-slot-not-unbound", "IncomingConnection.extendWindow", "", "function not found")
+	}
+
 	// (1b) lockset for the state shared between goroutines under writeMu
 	{
 		r2 := &repoCtx{c: c, co: r.co, funcs: map[string]*FuncInfo{}}
